@@ -176,38 +176,48 @@ func Harness_C04_tunnel_open() {
 		verif_Assert("C04.setup.routing", routing.RegisterWaitingTunnel(ctx, &session.TunnelWaitingState{TunnelID: "tun-1", MappingID: "pm1", SourceNodeID: "node-B", SourceClientID: c04Listen, TargetClientID: c04Target}) == nil)
 	}
 
-	// ---- the request under test ------------------------------------------------------------
-	who := []int64{0, c04Listen, c04Target, c04Stranger}[verif_Choose(4)]
-	cred := verif_Choose(5) // 0 mapping id only, 1 right secret, 2 wrong secret, 3 nothing, 4 resume token
-	req := &packet.TunnelOpenRequest{TunnelID: "tun-1"}
-	switch cred {
-	case 0:
-		req.MappingID = "pm1"
-	case 1:
-		req.MappingID, req.SecretKey = "pm1", "k1"
-	case 2:
-		req.MappingID, req.SecretKey = "pm1", "wrong"
-	case 4: // no resume token was ever issued, so none is valid
-		req.MappingID, req.SecretKey, req.ResumeToken = "pm1", "k1", "resume-token"
+	// ---- the request(s) under test ---------------------------------------------------------
+	// a second request (thorough tier) arrives in whatever state the first one left behind
+	nreq := 1
+	if verif_Bound("requests") > 1 {
+		nreq = verif_Bound("requests")
 	}
-	rw, id := w.newConn(who)
-	ack := w.open(rw, id, req)
+	bridgeNow := tstate == 1 || tstate == 3 // a bridge for tun-1 exists on this node
+	for r := 0; r < nreq; r++ {
+		who := []int64{0, c04Listen, c04Target, c04Stranger}[verif_Choose(4)]
+		cred := verif_Choose(5) // 0 mapping id only, 1 right secret, 2 wrong secret, 3 nothing, 4 resume token
+		req := &packet.TunnelOpenRequest{TunnelID: "tun-1"}
+		switch cred {
+		case 0:
+			req.MappingID = "pm1"
+		case 1:
+			req.MappingID, req.SecretKey = "pm1", "k1"
+		case 2:
+			req.MappingID, req.SecretKey = "pm1", "wrong"
+		case 4: // no resume token was ever issued, so none is valid
+			req.MappingID, req.SecretKey, req.ResumeToken = "pm1", "k1", "resume-token"
+		}
+		// tunnel state as this request finds it
+		rw, id := w.newConn(who)
+		ack := w.open(rw, id, req)
 
-	authorised := who != 0 && mappingValid &&
-		((cred == 0 && who == c04Listen) || (cred == 1 && (who == c04Listen || who == c04Target)))
-	attached := w.sm.GetTunnelBridgeByConnectionID(id) != nil
-	acked := ack != nil && ack.Success
-	// the branches that join an existing bridge / a tunnel waiting on another node require an
-	// authenticated connection but check neither the credential nor the mapping (known findings)
-	verif_Known("C04-existing-bridge-no-entitlement-check", (tstate == 1 || tstate == 3) && who != 0)
-	verif_Known("C04-cross-node-no-entitlement-check", tstate == 2 && who != 0)
-	verif_Assert("C04.attach_only_if_authorised", verif_Implies(attached || acked, authorised))
-	if !authorised {
-		verif_Assert("C04.refused_gets_failure_ack", ack != nil && !ack.Success)
-		verif_Cover("C04.refused")
-	}
-	if attached {
-		verif_Cover("C04.attached")
+		authorised := who != 0 && mappingValid &&
+			((cred == 0 && who == c04Listen) || (cred == 1 && (who == c04Listen || who == c04Target)))
+		attached := w.sm.GetTunnelBridgeByConnectionID(id) != nil
+		acked := ack != nil && ack.Success
+		// the branches that join an existing bridge / a tunnel waiting on another node require an
+		// authenticated connection but check neither the credential nor the mapping (known findings)
+		verif_Known("C04-existing-bridge-no-entitlement-check", bridgeNow && who != 0)
+		verif_Known("C04-cross-node-no-entitlement-check", !bridgeNow && tstate == 2 && who != 0)
+		verif_Assert("C04.attach_only_if_authorised", verif_Implies(attached || acked, authorised))
+		if !authorised {
+			verif_Assert("C04.refused_gets_failure_ack", ack != nil && !ack.Success)
+			verif_Cover("C04.refused")
+		}
+		if attached {
+			verif_Cover("C04.attached")
+			bridgeNow = true
+		}
 	}
 	verif_Cover("C04.done")
 }
